@@ -336,7 +336,10 @@ def replay(ctx, rp):
         evaluate(ctx, op, a, i, out[1])
     elif isinstance(case, dict) and "module" in case:
         label = case.get("label", "replay")
-        t = G_.task("replay", case["module"], [(c[0], tuple(c[1]), label) for c in case.get("calls", [])], kind="pattern", name=label)
+        labels = case.get("labels") or [label] * len(case.get("calls", []))
+        t = G_.task("replay", case["module"], [(c[0], tuple(c[1]), l) for c, l in zip(case.get("calls", []), labels)], kind="pattern",
+                    name=case.get("name", label),
+                    after=case.get("after"), twice=case.get("twice", False))
         run_tasks(ctx, [t], [case.get("target", "python")])
         for f in ctx.failures:
             print("replay:", f["signature"], "-", f["what"][:300])
